@@ -68,6 +68,9 @@ def run(chk):
         if t.unit.src.startswith("bin/rdsquashfs/"):
             continue        # unpack order of rdsquashfs: performance only
         check_comparator(chk, prog, t, li, ri, "K14-cmp", equals=eq)
+    from .c08 import rule_g_truncate
+    rule_g_truncate(chk, load_program("gensquashfs"))
+    chk.floor("K13-truncate", 1)
     chk.floor("K7", 45)
     chk.floor("A1", 150)
     chk.floor("K6-alloca", 2)
